@@ -98,6 +98,26 @@ func (e *c02Env) snap(m *c02Mon) bool {
 	return got == want
 }
 
+// matchingNow: keys of the objects matching the binding right now, plus the matching namespaces.
+func (e *c02Env) matchingNow(spec c02MonSpec) map[string]bool {
+	res := map[string]bool{}
+	e.cl.mu.Lock()
+	defer e.cl.mu.Unlock()
+	for k, v := range e.cl.objs {
+		if spec.matches(e.cl, k, v) {
+			res[fmt.Sprintf("o/%d/%d/%d", k.ns, k.kind, k.name)] = true
+		}
+	}
+	if spec.nsSel {
+		for ns, l := range e.cl.nss {
+			if l == 1 {
+				res[fmt.Sprintf("n/%d", ns)] = true
+			}
+		}
+	}
+	return res
+}
+
 func (e *c02Env) stop(m *c02Mon) {
 	_ = m.mgr.StopMonitor(m.id)
 	m.cancel()
@@ -333,6 +353,7 @@ func c02MonitorCase(c *Case, rng *Rng, spec c02MonSpec, withGap bool, nops int) 
 		}
 		c.Note("snap:before-start")
 	}
+	atAdd := e.matchingNow(spec)
 	if withGap {
 		// the cluster moves on between AddMonitor (own List) and StartMonitor (registration):
 		// creations and in-place modifications only; deletions in the gap are the recorded finding
@@ -340,6 +361,16 @@ func c02MonitorCase(c *Case, rng *Rng, spec c02MonSpec, withGap bool, nops int) 
 			h.randomOp(spec.kind, true)
 		}
 		c.Note("gap:safe-ops")
+	}
+	// classifier of the recorded finding: something that matched at AddMonitor time is gone or no
+	// longer matches at StartMonitor time (the generator avoids it; should it happen anyway the
+	// case is a replay of the finding, not a new violation)
+	atStart := e.matchingNow(spec)
+	for k := range atAdd {
+		if !atStart[k] {
+			c.Known = c02GhostID
+			c.Note("known:" + c02GhostID + ":generated")
+		}
 	}
 	e.start(m)
 	e.setActive([]*c02Mon{m})
